@@ -10,6 +10,7 @@
 -/
 import Batchie.Lemmas.PrepHoldout
 import Batchie.Lemmas.PrepOps
+import Batchie.Lemmas.PrepExamples
 
 namespace Batchie.Props.C11
 open Batchie.Proto Batchie.Screen Batchie.Prep
@@ -238,5 +239,25 @@ theorem C11_initial_plate_conserves (r : Raw) (reveal : Bool) (log : List Nat) (
 /-- the combination filter returns a sublist of the input records (plate label, mask, observation untouched) -/
 theorem C11_combo_filter_subcollection (s t : Screen) (h : comboFilter s = .ok t) : (rowsOf t).Sublist (rowsOf s) :=
   comboFilter_sublist h
+
+/-! ### the hypotheses are satisfiable (concrete 7-row screen `exRaw`: two samples, unobserved plates of sizes 2, 1 and 3,
+    one observed plate, a single-agent row and a duplicate condition; evaluated by `decide` in `Lemmas/PrepExamples.lean`) -/
+
+example : ∃ s kh, mk? exRaw = .ok s ∧ holdoutBalanced (fun n => (n + 1) / 2) [[0],[3],[1,5]] s = .ok kh := ex_holdout_balanced
+example : ∃ s kh, mk? exRaw = .ok s ∧ holdoutBalanced (fun _ => 0) [[],[],[]] s = .ok kh := ex_holdout_fraction_zero
+example : ∃ s kh, mk? exRaw = .ok s ∧ holdoutBalanced (fun n => n) [[2,0],[3],[1,5,4]] s = .ok kh := ex_holdout_fraction_one
+example : ∃ s kh, mk? exRaw = .ok s ∧ holdoutRandom (fun n => (n + 1) / 2) [0,2,4,6] s = .ok kh := ex_holdout_random
+example : ∃ s out, mk? exRaw = .ok s ∧
+    (Generator.permutation [] [[112,51],[112,49],[112,49],[112,50],[112,51],[112,51]]).wrapped s = .ok out := ex_wrapped_permutation
+example : ∃ s out, mk? exRaw = .ok s ∧ (Generator.segregating 2 [[0,3,2],[5,1,4]]).wrapped s = .ok out := ex_wrapped_segregating
+example : ∃ s out, mk? exRaw = .ok s ∧ (Generator.pairwise 1 0 [] [[2,0,4,1,3]] [[genName 3]]).wrapped s = .ok out := ex_wrapped_pairwise
+example : ∃ s out, mk? exRaw = .ok s ∧ (Smoother.mergeMin 3 [3,0]).wrapped s = .ok out := ex_wrapped_mergeMin
+example : ∃ s out, mk? exRaw = .ok s ∧ (Smoother.fixedSize 2 [[1,4]]).wrapped s = .ok out := ex_wrapped_fixedSize
+example : ∃ s out, mk? exRaw = .ok s ∧ (Smoother.optimalSize [[4,5]]).wrapped s = .ok out := ex_wrapped_optimalSize
+example : ∃ s out, mk? exRaw = .ok s ∧ (Smoother.nPlate 2).wrapped s = .ok out := ex_wrapped_nPlate
+example : ∃ s out, mk? exRaw = .ok s ∧ (Smoother.ensemble 3 1 1 [3,0] []).wrapped s = .ok out := ex_wrapped_ensemble
+example : ∃ s out, mk? (rawOfRows [] 2 exOne none none) = .ok s ∧ (Smoother.mergeTopBottom 2).wrapped s = .ok out := ex_wrapped_mergeTopBottom
+example : ∃ s out, mk? (rawOfRows [] 2 exFull none none) = .ok s ∧ sparseCover true [0, 1, 3, 5] s = .ok out := ex_sparse_cover
+example : ∃ s out, mk? exRaw = .ok s ∧ comboFilter s = .ok out := ex_combo_filter
 
 end Batchie.Props.C11
